@@ -1,4 +1,7 @@
 import PEval.Lemmas.LookupArith
+import PEval.Lemmas.LookupTable
+import PEval.Gen.LookupTables
+import Mathlib.Tactic.FieldSimp
 /-!
 # C17 — ground-truth lookup picks the nearest frame in tolerance; interpolation is exact
 
@@ -549,5 +552,233 @@ example : (getInterpolated [fr0, fr1, fr2] 2000 1000).toOption.map
     some (1, [(3, v 10 0 0, 1/2), (4, v 10 3 (0), -1/4)]) := by decide +kernel
 
 end Examples
+
+/-! ## the CODE's decision tables (regenerated from the source on every run)
+
+`Gen.getNowTrees` / `Gen.getInterpTrees` hold, for frame lists of length 0..3, the complete decision
+tree of the REAL `get_now_frame` / `get_interpolated_now_frame` over three-valued order atoms
+(`harness/dt_c17.py`).  This is a BOUNDED skeleton (up to three frames); the unbounded statements are
+the theorems above about the model, and `getNowFrame_eq_atoms` / `getInterpolated_eq_atoms` tie the
+model to its atom skeleton for every length.  Atoms of different linear forms are treated as
+independent: the theorems below quantify over ALL valuations, a superset of the realisable ones.
+An empty table list means the translator reported `untranslatable` (recorded in the evidence). -/
+
+section Tables
+open PEval.LookupDT
+
+/-- every row of the code's table of `get_now_frame` is the model's skeleton, on EVERY valuation -/
+theorem getNow_code_table_eq_model :
+    ∀ p ∈ Gen.getNowTrees, ∀ v : Valuation, evalTree p.2 v = getNowAtoms p.1 v := by
+  intro p hp v
+  rw [← evalTree_getNowSkel]
+  exact tableOk_sound (by decide +kernel : tableOk Gen.getNowTrees getNowSkel = true) p hp v
+
+/-- every row of the code's table of `get_interpolated_now_frame` is the model's skeleton -/
+theorem getInterp_code_table_eq_model :
+    ∀ p ∈ Gen.getInterpTrees, ∀ v : Valuation, evalTree p.2 v = getInterpAtoms p.1 v := by
+  intro p hp v
+  rw [← evalTree_getInterpSkel]
+  exact tableOk_sound (by decide +kernel : tableOk Gen.getInterpTrees getInterpSkel = true) p hp v
+
+/-- the code's table, read on the valuation of a concrete frame list, is the model's `getNowFrame` -/
+theorem getNow_code_table_eq_getNowFrame (fs : List Frame) (q tol : Int) :
+    ∀ p ∈ Gen.getNowTrees, p.1 = fs.length →
+      decodeNow fs (evalTree p.2 (valuationOf (times fs) q tol)) = getNowFrame fs q tol := by
+  intro p hp hn
+  rw [getNow_code_table_eq_model p hp, hn, ← getNowFrame_eq_atoms]
+
+/-- the code's table, read on the valuation of a concrete frame list, is the model's
+`getInterpolated` (`interp i j` decoding to the interpolation of frames `i`, `j` at the query time) -/
+theorem getInterp_code_table_eq_getInterpolated (fs : List Frame) (q tol : Int) :
+    ∀ p ∈ Gen.getInterpTrees, p.1 = fs.length →
+      decodeInterp fs q (evalTree p.2 (valuationOf (times fs) q tol)) = getInterpolated fs q tol := by
+  intro p hp hn
+  rw [getInterp_code_table_eq_model p hp, hn, ← getInterpolated_eq_atoms]
+
+/-- `getNow_spec` for what the CODE's table says: the answer is a frame of the list minimising
+`|dt|` within the tolerance, or nothing exactly when every frame is farther than the tolerance. -/
+theorem getNow_code_table_spec (fs : List Frame) (q tol : Int) (ht : q ≤ maxTime) (hne : fs ≠ []) :
+    ∀ p ∈ Gen.getNowTrees, p.1 = fs.length →
+      (∃ f, decodeNow fs (evalTree p.2 (valuationOf (times fs) q tol)) = .ok (some f) ∧ f ∈ fs ∧
+          (∀ g ∈ fs, absDt q f ≤ absDt q g) ∧ (absDt q f : Int) ≤ tol) ∨
+      (decodeNow fs (evalTree p.2 (valuationOf (times fs) q tol)) = .ok none ∧
+          ∀ g ∈ fs, tol < (absDt q g : Int)) := by
+  intro p hp hn
+  rw [getNow_code_table_eq_getNowFrame fs q tol p hp hn]
+  exact getNow_spec fs q tol ht hne
+
+/-- first-of-ties for the code's table -/
+theorem getNow_code_table_first_tie (fs : List Frame) (q tol : Int) (f : Frame) :
+    ∀ p ∈ Gen.getNowTrees, p.1 = fs.length →
+      decodeNow fs (evalTree p.2 (valuationOf (times fs) q tol)) = .ok (some f) →
+      ∃ pre post, fs = pre ++ f :: post ∧ ∀ g ∈ pre, absDt q f < absDt q g := by
+  intro p hp hn h
+  rw [getNow_code_table_eq_getNowFrame fs q tol p hp hn] at h
+  exact getNow_first_tie fs q tol f h
+
+/-- `gating` for what the CODE's table says: the outcome is decided by which neighbours of the scan
+survive the tolerance test. -/
+theorem getInterp_code_table_gating (fs : List Frame) (q tol : Int) :
+    ∀ p ∈ Gen.getInterpTrees, p.1 = fs.length →
+      decodeInterp fs q (evalTree p.2 (valuationOf (times fs) q tol)) =
+        match gate tol (neighbours fs q).dtBefore (neighbours fs q).before,
+              gate tol (neighbours fs q).dtAfter (neighbours fs q).after with
+        | none, none => .ok .nothing
+        | none, some a => .ok (.orig a)
+        | some b, none => .ok (.orig b)
+        | some b, some a =>
+          match interpolateFrames b a q with
+          | .error k => .error k
+          | .ok f => .ok (.interp f) := by
+  intro p hp hn
+  rw [getInterp_code_table_eq_getInterpolated fs q tol p hp hn]
+  rfl
+
+/-- no neighbour within tolerance ⇒ the code's table answers nothing (the statement seeded change
+`C17_A` breaks) -/
+theorem getInterp_code_table_none (fs : List Frame) (q tol : Int)
+    (hb : (neighbours fs q).before = none ∨ ∃ b, (neighbours fs q).before = some b ∧ tol < q - b.time)
+    (ha : (neighbours fs q).after = none ∨ ∃ a, (neighbours fs q).after = some a ∧ tol < a.time - q) :
+    ∀ p ∈ Gen.getInterpTrees, p.1 = fs.length →
+      decodeInterp fs q (evalTree p.2 (valuationOf (times fs) q tol)) = .ok .nothing := by
+  intro p hp hn
+  rw [getInterp_code_table_eq_getInterpolated fs q tol p hp hn]
+  exact gating_none fs q tol hb ha
+
+/-- non-vacuity of the skeleton side (independent of the generated file): the skeleton trees read on
+concrete valuations give the answers of the examples above, and the checker accepts / rejects -/
+example : evalTree (getNowSkel 3) (valuationOf [1000, 2000, 3000] 1400 400) = .frame 0 := by decide +kernel
+example : evalTree (getNowSkel 3) (valuationOf [1000, 2000, 3000] 1500 499) = .none := by decide +kernel
+example : evalTree (getInterpSkel 3) (valuationOf [1000, 2000, 3000] 1500 500) = .interp 0 1 := by decide +kernel
+example : evalTree (getInterpSkel 3) (valuationOf [1000, 2000, 3000] 990 75) = .frame 0 := by decide +kernel
+example : equiv [] (getNowSkel 2) (getNowSkel 2) = true := by decide +kernel
+example : equiv [] (getNowSkel 2) (getNowSkel 3) = false := by decide +kernel
+
+end Tables
+
+/-! ## the CODE's interpolation formulas (regenerated from the source on every run)
+
+`Gen.interpList_n_i` is the expression tree the REAL `interpolate_list` returned for component `i`
+of two lists of `n` symbolic leaves; `Gen.statePos_i` / `Gen.stateVel_i` the position / velocity
+components produced by `interpolate_state` on a stub state; `Gen.stateAlpha` / `Gen.quatAlpha` the
+slerp parameter handed to `Quaternion.slerp` by `interpolate_state` / `interpolate_quaternion`. -/
+
+section Arith
+
+/-- complete for equalities of rational functions whose denominators are non-zero by hypothesis -/
+macro "ratfun" : tactic => `(tactic| first | ring1 | (field_simp; ring1) | field_simp)
+
+/-- every component of `interpolate_list` (lists of length 1, 2, 3) is the model's `lerp` formula -/
+theorem interpList_code_eq_model (a0 a1 a2 b0 b1 b2 t1 t2 t : ℚ) (h : t1 ≠ t2) :
+    Gen.interpList_1_0 a0 a1 a2 b0 b1 b2 t1 t2 t = a0 + (t - t1) / (t2 - t1) * (b0 - a0) ∧
+    Gen.interpList_2_0 a0 a1 a2 b0 b1 b2 t1 t2 t = a0 + (t - t1) / (t2 - t1) * (b0 - a0) ∧
+    Gen.interpList_2_1 a0 a1 a2 b0 b1 b2 t1 t2 t = a1 + (t - t1) / (t2 - t1) * (b1 - a1) ∧
+    Gen.interpList_3_0 a0 a1 a2 b0 b1 b2 t1 t2 t = a0 + (t - t1) / (t2 - t1) * (b0 - a0) ∧
+    Gen.interpList_3_1 a0 a1 a2 b0 b1 b2 t1 t2 t = a1 + (t - t1) / (t2 - t1) * (b1 - a1) ∧
+    Gen.interpList_3_2 a0 a1 a2 b0 b1 b2 t1 t2 t = a2 + (t - t1) / (t2 - t1) * (b2 - a2) := by
+  have hd : t2 - t1 ≠ 0 := sub_ne_zero.mpr (Ne.symm h)
+  refine ⟨?_, ?_, ?_, ?_, ?_, ?_⟩
+  · unfold Gen.interpList_1_0; ratfun
+  · unfold Gen.interpList_2_0; ratfun
+  · unfold Gen.interpList_2_1; ratfun
+  · unfold Gen.interpList_3_0; ratfun
+  · unfold Gen.interpList_3_1; ratfun
+  · unfold Gen.interpList_3_2; ratfun
+
+/-- position and velocity components of `interpolate_state` are the model's `lerp` formula, and the
+slerp parameter of `interpolate_state` / `interpolate_quaternion` is `(t - t1) / (t2 - t1)` -/
+theorem interpState_code_eq_model (a0 a1 a2 b0 b1 b2 t1 t2 t : ℚ) (h : t1 ≠ t2) :
+    Gen.statePos_0 a0 a1 a2 b0 b1 b2 t1 t2 t = a0 + (t - t1) / (t2 - t1) * (b0 - a0) ∧
+    Gen.statePos_1 a0 a1 a2 b0 b1 b2 t1 t2 t = a1 + (t - t1) / (t2 - t1) * (b1 - a1) ∧
+    Gen.statePos_2 a0 a1 a2 b0 b1 b2 t1 t2 t = a2 + (t - t1) / (t2 - t1) * (b2 - a2) ∧
+    Gen.stateVel_0 a0 a1 a2 b0 b1 b2 t1 t2 t = a0 + (t - t1) / (t2 - t1) * (b0 - a0) ∧
+    Gen.stateVel_1 a0 a1 a2 b0 b1 b2 t1 t2 t = a1 + (t - t1) / (t2 - t1) * (b1 - a1) ∧
+    Gen.stateVel_2 a0 a1 a2 b0 b1 b2 t1 t2 t = a2 + (t - t1) / (t2 - t1) * (b2 - a2) ∧
+    Gen.stateAlpha t1 t2 t = (t - t1) / (t2 - t1) ∧
+    Gen.quatAlpha t1 t2 t = (t - t1) / (t2 - t1) := by
+  have hd : t2 - t1 ≠ 0 := sub_ne_zero.mpr (Ne.symm h)
+  refine ⟨?_, ?_, ?_, ?_, ?_, ?_, ?_, ?_⟩
+  · unfold Gen.statePos_0; ratfun
+  · unfold Gen.statePos_1; ratfun
+  · unfold Gen.statePos_2; ratfun
+  · unfold Gen.stateVel_0; ratfun
+  · unfold Gen.stateVel_1; ratfun
+  · unfold Gen.stateVel_2; ratfun
+  · unfold Gen.stateAlpha; ratfun
+  · unfold Gen.quatAlpha; ratfun
+
+/-- the velocity of `interpolate_state` is present exactly when both velocities are (F15), as in
+the model's `interpVel`; vacuous when the translator could not run `interpolate_state` -/
+theorem interpState_code_velocity_presence :
+    ∀ r ∈ Gen.velPresence, r.2.2 = (r.1 && r.2.1) ∧
+      ∀ (α : ℚ) (v1 v2 : Vec3),
+        (interpVel α (if r.1 then some v1 else none) (if r.2.1 then some v2 else none)).isSome = r.2.2 := by
+  intro r hr
+  have hall : Gen.velPresence.all (fun r => r.2.2 == (r.1 && r.2.1)) = true := by decide +kernel
+  have h := List.all_eq_true.1 hall r hr
+  obtain ⟨x, y, z⟩ := r
+  simp only [beq_iff_eq] at h
+  refine ⟨h, ?_⟩
+  intro α v1 v2
+  simp only at h ⊢
+  rw [h]
+  cases x <;> cases y <;> rfl
+
+/-- the code's formulas are the MODEL's `Vec3.lerp _ _ (alpha t1 t2 t)` on integer stamps -/
+theorem interpState_code_eq_lerp (p1 p2 : Vec3) (t1 t2 t : Int) (h : t1 ≠ t2) :
+    Gen.statePos_0 p1.x p1.y p1.z p2.x p2.y p2.z t1 t2 t = (Vec3.lerp p1 p2 (alpha t1 t2 t)).x ∧
+    Gen.statePos_1 p1.x p1.y p1.z p2.x p2.y p2.z t1 t2 t = (Vec3.lerp p1 p2 (alpha t1 t2 t)).y ∧
+    Gen.statePos_2 p1.x p1.y p1.z p2.x p2.y p2.z t1 t2 t = (Vec3.lerp p1 p2 (alpha t1 t2 t)).z ∧
+    Gen.stateVel_0 p1.x p1.y p1.z p2.x p2.y p2.z t1 t2 t = (Vec3.lerp p1 p2 (alpha t1 t2 t)).x ∧
+    Gen.stateVel_1 p1.x p1.y p1.z p2.x p2.y p2.z t1 t2 t = (Vec3.lerp p1 p2 (alpha t1 t2 t)).y ∧
+    Gen.stateVel_2 p1.x p1.y p1.z p2.x p2.y p2.z t1 t2 t = (Vec3.lerp p1 p2 (alpha t1 t2 t)).z ∧
+    Gen.stateAlpha t1 t2 t = alpha t1 t2 t ∧ Gen.quatAlpha t1 t2 t = alpha t1 t2 t := by
+  have hq : ((t1 : Int) : ℚ) ≠ ((t2 : Int) : ℚ) := by exact_mod_cast h
+  obtain ⟨h0, h1, h2, h3, h4, h5, h6, h7⟩ :=
+    interpState_code_eq_model p1.x p1.y p1.z p2.x p2.y p2.z t1 t2 t hq
+  have ha : alpha t1 t2 t = ((t : ℚ) - t1) / ((t2 : ℚ) - t1) := by unfold alpha; push_cast; rfl
+  rw [Vec3.lerp_x, Vec3.lerp_y, Vec3.lerp_z, ha]
+  exact ⟨h0, h1, h2, h3, h4, h5, h6, h7⟩
+
+/-- end points of the code's formula: the first list at `t1`, the second at `t2` -/
+theorem interpList_code_endpoints (a0 a1 a2 b0 b1 b2 t1 t2 : ℚ) (h : t1 ≠ t2) :
+    Gen.interpList_3_0 a0 a1 a2 b0 b1 b2 t1 t2 t1 = a0 ∧ Gen.interpList_3_1 a0 a1 a2 b0 b1 b2 t1 t2 t1 = a1 ∧
+    Gen.interpList_3_2 a0 a1 a2 b0 b1 b2 t1 t2 t1 = a2 ∧
+    Gen.interpList_3_0 a0 a1 a2 b0 b1 b2 t1 t2 t2 = b0 ∧ Gen.interpList_3_1 a0 a1 a2 b0 b1 b2 t1 t2 t2 = b1 ∧
+    Gen.interpList_3_2 a0 a1 a2 b0 b1 b2 t1 t2 t2 = b2 := by
+  have hd : t2 - t1 ≠ 0 := sub_ne_zero.mpr (Ne.symm h)
+  obtain ⟨_, _, _, e0, e1, e2⟩ := interpList_code_eq_model a0 a1 a2 b0 b1 b2 t1 t2 t1 h
+  obtain ⟨_, _, _, f0, f1, f2⟩ := interpList_code_eq_model a0 a1 a2 b0 b1 b2 t1 t2 t2 h
+  rw [e0, e1, e2, f0, f1, f2, sub_self, zero_div, div_self hd]
+  refine ⟨?_, ?_, ?_, ?_, ?_, ?_⟩ <;> ring
+
+/-- between the end points for `t1 ≤ t ≤ t2`, and affine in `t` (equal time steps give equal
+increments) -/
+theorem interpList_code_between_linear (a0 a1 a2 b0 b1 b2 t1 t2 t : ℚ) (h1 : t1 ≤ t) (h2 : t ≤ t2)
+    (h12 : t1 < t2) :
+    (min a0 b0 ≤ Gen.interpList_3_0 a0 a1 a2 b0 b1 b2 t1 t2 t ∧
+      Gen.interpList_3_0 a0 a1 a2 b0 b1 b2 t1 t2 t ≤ max a0 b0) ∧
+    (min a1 b1 ≤ Gen.interpList_3_1 a0 a1 a2 b0 b1 b2 t1 t2 t ∧
+      Gen.interpList_3_1 a0 a1 a2 b0 b1 b2 t1 t2 t ≤ max a1 b1) ∧
+    (min a2 b2 ≤ Gen.interpList_3_2 a0 a1 a2 b0 b1 b2 t1 t2 t ∧
+      Gen.interpList_3_2 a0 a1 a2 b0 b1 b2 t1 t2 t ≤ max a2 b2) ∧
+    ∀ s d : ℚ,
+      Gen.interpList_3_0 a0 a1 a2 b0 b1 b2 t1 t2 (s + d) - Gen.interpList_3_0 a0 a1 a2 b0 b1 b2 t1 t2 s =
+        d / (t2 - t1) * (b0 - a0) := by
+  have hne : t1 ≠ t2 := ne_of_lt h12
+  have hpos : 0 < t2 - t1 := sub_pos.mpr h12
+  have hα0 : 0 ≤ (t - t1) / (t2 - t1) := div_nonneg (sub_nonneg.mpr h1) hpos.le
+  have hα1 : (t - t1) / (t2 - t1) ≤ 1 := by rw [div_le_one hpos]; linarith
+  obtain ⟨_, _, _, e0, e1, e2⟩ := interpList_code_eq_model a0 a1 a2 b0 b1 b2 t1 t2 t hne
+  rw [e0, e1, e2]
+  refine ⟨lerp_between hα0 hα1, lerp_between hα0 hα1, lerp_between hα0 hα1, ?_⟩
+  intro s d
+  rw [(interpList_code_eq_model a0 a1 a2 b0 b1 b2 t1 t2 (s + d) hne).2.2.2.1,
+    (interpList_code_eq_model a0 a1 a2 b0 b1 b2 t1 t2 s hne).2.2.2.1]
+  have hd : t2 - t1 ≠ 0 := ne_of_gt hpos
+  field_simp
+  ring
+
+end Arith
 
 end PEval.C17
